@@ -141,6 +141,9 @@ def represent(kets, rhos, rep, field, dtypes=None):
     (dtypes: per-state numpy dtype kinds 'i' / 'f' / 'c' for ensembles that deliberately mix dtypes)"""
     out = []
     for i, r in enumerate(rhos):
+        if rep == "dm-F":  # density matrices stored Fortran-ordered
+            out.append(np.asfortranarray(np.array(r).astype(complex if field != "real" else float) if field != "real" else np.array(r).real.astype(float)))
+            continue
         if dtypes is not None:
             a = np.array(r) if (rep == "dm" or kets is None) else (np.array(kets[i]).reshape(-1) if rep == "1d" else np.array(kets[i]).reshape(-1, 1))
             k = dtypes[i] if i < len(dtypes) else "c"
@@ -160,6 +163,8 @@ def represent(kets, rhos, rep, field, dtypes=None):
             a = np.array(kets[i]).reshape(-1, 1)
         elif rep == "row":
             a = np.array(kets[i]).reshape(1, -1)
+        elif rep == "mixed-layout":  # the same ensemble with its kets stored in different vector layouts (1-D, column, row, ...)
+            a = (np.array(kets[i]).reshape(-1), np.array(kets[i]).reshape(-1, 1), np.array(kets[i]).reshape(1, -1))[i % 3]
         else:
             raise ValueError(rep)
         if field == "real":
